@@ -305,6 +305,13 @@ class _ReadSourceGenerator:
                 getter = f"data[{slice_index}]"
                 slice_index += 1
 
+            is_pointer = issubclass(field_type, Pointer) or (
+                issubclass(field_type, Array) and issubclass(field_type.type, Pointer)
+            )
+            if is_pointer and not issubclass(read_type, Packed):
+                # Pointers are constructed from unpacked integers, byte based pointer types need the interpreted reader
+                raise TypeError(f"Unsupported pointer type for compiler: {read_type}")
+
             if issubclass(read_type, (Wchar, Int)):
                 # Types that parse bytes further down to their own type
                 parser_template = "{type}({getter})"
